@@ -567,43 +567,53 @@ type targetResult struct {
 
 func (r *runner) seedRun(target string, tr *targetResult) {
 	c := r.c
-	rep := filepath.Join(c.Scratch, "reports", target+"-seed")
-	c.Must(os.MkdirAll(rep, 0o755), "mkdir rep")
-	res := runCmd(r.work, r.testEnv(rep), 30*time.Minute, r.bin, "-test.run", "^"+target+"$")
-	if res.timeout {
-		c.Inconclusive("%s: seed corpus run timed out", target)
-		return
-	}
-	hangs := r.failReports(rep, "seed corpus")
-	for _, h := range hangs {
-		r.confirmHang(h, "seed corpus")
-		// A seed that does not return would also stop the engine while it gathers
-		// baseline coverage: it has been judged here, so it is set aside.
-		dir := filepath.Join(r.work, "testdata", "fuzz", target)
-		es, _ := os.ReadDir(dir)
-		for _, e := range es {
-			if b, err := os.ReadFile(filepath.Join(dir, e.Name())); err == nil && string(b) == h.Corpus {
-				aside := filepath.Join(c.Scratch, "crashers", target)
-				_ = os.MkdirAll(aside, 0o755)
-				_ = os.Rename(filepath.Join(dir, e.Name()), filepath.Join(aside, "seed-"+e.Name()))
-				c.Count("seeds_set_aside_after_watchdog", 1)
+	// A seed on which the watchdog fires leaves its decode goroutine running in
+	// the seed-run process (it may even end that process with a stack overflow
+	// before the remaining seeds are judged), and it would stop the engine while
+	// it gathers baseline coverage. Such a seed is judged (confirmHang), set
+	// aside, and the remaining seeds are run again in a fresh process.
+	for round := 0; round < 8; round++ {
+		rep := filepath.Join(c.Scratch, "reports", fmt.Sprintf("%s-seed-%d", target, round))
+		c.Must(os.MkdirAll(rep, 0o755), "mkdir rep")
+		res := runCmd(r.work, r.testEnv(rep), 30*time.Minute, r.bin, "-test.run", "^"+target+"$")
+		if res.timeout {
+			c.Inconclusive("%s: seed corpus run timed out", target)
+			return
+		}
+		hangs := r.failReports(rep, "seed corpus")
+		for _, h := range hangs {
+			r.confirmHang(h, "seed corpus")
+			dir := filepath.Join(r.work, "testdata", "fuzz", target)
+			es, _ := os.ReadDir(dir)
+			for _, e := range es {
+				if b, err := os.ReadFile(filepath.Join(dir, e.Name())); err == nil && string(b) == h.Corpus {
+					aside := filepath.Join(c.Scratch, "crashers", target)
+					_ = os.MkdirAll(aside, 0o755)
+					_ = os.Rename(filepath.Join(dir, e.Name()), filepath.Join(aside, "seed-"+e.Name()))
+					c.Count("seeds_set_aside_after_watchdog", 1)
+				}
 			}
 		}
-	}
-	if res.code != 0 && len(hangs) == 0 {
-		if key, msg, stack := classifyCrash(target, res.out); key != "" {
-			r.fail(key, fmt.Sprintf("%s: seed corpus run died: %s | %s", target, msg, firstLines(stackAfterPanic(stack), 8)), map[string]any{"target": target, "origin": "seed corpus", "output": tail(res.out, 3000)})
-		} else {
-			c.Broken("%s: seed corpus run failed: %s", target, tail(res.out, 1500))
+		if len(hangs) > 0 {
+			continue
 		}
-	}
-	for k, st := range readStats(rep) {
-		tr.SeedsAccepted += st.OK
-		if st.OK > 0 {
-			c.Seen("modes_accepting_a_seed", k)
+		if res.code != 0 {
+			if key, msg, stack := classifyCrash(target, res.out); key != "" {
+				r.fail(key, fmt.Sprintf("%s: seed corpus run died: %s | %s", target, msg, firstLines(stackAfterPanic(stack), 8)), map[string]any{"target": target, "origin": "seed corpus", "output": tail(res.out, 3000)})
+			} else {
+				c.Broken("%s: seed corpus run failed: %s", target, tail(res.out, 1500))
+			}
 		}
-		trackAlloc(tr, st)
+		for k, st := range readStats(rep) {
+			tr.SeedsAccepted += st.OK
+			if st.OK > 0 {
+				c.Seen("modes_accepting_a_seed", k)
+			}
+			trackAlloc(tr, st)
+		}
+		return
 	}
+	c.Inconclusive("%s: the watchdog still fires on seed corpus entries after 8 rounds of setting them aside", target)
 }
 
 func trackAlloc(tr *targetResult, st *modeStats) {
@@ -649,6 +659,7 @@ func (r *runner) fuzzRun(target string, budget, workers int, tr *targetResult) {
 	defer func() { tr.WallS = time.Since(t0).Seconds() }()
 	corpusDir := filepath.Join(r.work, "testdata", "fuzz", target)
 	aside := filepath.Join(c.Scratch, "crashers", target)
+	stalled := 0
 	for attempt := 0; ; attempt++ {
 		remaining := budget - tr.Execs
 		if remaining <= 0 {
@@ -721,8 +732,13 @@ func (r *runner) fuzzRun(target string, budget, workers int, tr *targetResult) {
 				// seed passed this check's CPU-time watchdog in the seed run, so this is load
 				c.Count("engine_wallclock_timer_kills_not_confirmed", 1)
 				tr.BenignRestarts++
-				if tr.BenignRestarts > 10*maxRestarts {
-					break
+				if fo.execs == 0 {
+					stalled++
+				} else {
+					stalled = 0
+				}
+				if tr.BenignRestarts > 10*maxRestarts || stalled >= 3 {
+					break // no progress: the engine dies while gathering baseline coverage
 				}
 				continue
 			}
